@@ -3,6 +3,9 @@
 package main
 
 import (
+	"time"
+	"net/url"
+	"context"
 	"bytes"
 	"crypto/sha256"
 	"encoding/base64"
@@ -106,6 +109,8 @@ func vfC05(w *vfWorld) {
 		other := map[string]string{"S256": "plain", "plain": "S256"}[cfg.PKCE]
 		cfg.Extra = append(cfg.Extra, "--force-code-challenge-method="+other)
 	}
+	// a quarter of the worlds run the same configuration migrated to the alpha (YAML) format by the product's own converter
+	cfg.Alpha = t.Prob("c05.alpha-config", 250)
 	cs.PKCE, cs.SkipNonce, cs.PerRequest = cfg.PKCE, cfg.SkipNonce, cfg.CSRFPerRequest
 	idp := w.StartIdP()
 	// what the provider's metadata says about PKCE is advisory: the operator's configured method is what the statement
@@ -324,6 +329,60 @@ func vfC05(w *vfWorld) {
 			fr := b.GET(rep, "/app/after-login")
 			scan(fr, "proxied")
 		}
+	}
+	// ---- code injection racing with the honest completion: login B presents login A's code while A's own callback is in
+	// flight, every identity-provider call interleaved by the tape. A session is established only by a callback whose OWN token
+	// request (carrying its own verifier) was answered by the provider, and one code never yields two sessions
+	if t.Prob("c05.concurrent-injection", 300) {
+		behaviour, curLogin = "honest", nil
+		ba, bb := w.NewBrowser("BA", "192.0.2.8:4711"), w.NewBrowser("BB", "198.51.100.9:4711")
+		la, _ := ba.StartLogin(rep, pp+"/start?rd=%2Fapp", "alice")
+		lb, _ := bb.StartLogin(rep, pp+"/start?rd=%2Fapp", "bob")
+		if la == nil || lb == nil {
+			w.fatalf("c05: start of the racing logins failed")
+		}
+		cv := map[string]string{"TA": vfOpenCSRF(w, cfg, la.CSRFName, la.CSRFValue).CV, "TB": vfOpenCSRF(w, cfg, lb.CSRFName, lb.CSRFValue).CV}
+		injected := pp + "/callback?code=" + url.QueryEscape(la.Code) + "&state=" + url.QueryEscape(lb.State)
+		resps := map[string]*vfResp{}
+		var rmu sync.Mutex
+		mk := func(id string, b *vfBrowser, target string) *vfTask {
+			return &vfTask{id: id, rep: rep, fn: func(ctx context.Context) {
+				r := b.Do(rep, &vfReq{Method: "GET", Target: target, Ctx: ctx})
+				rmu.Lock()
+				resps[id] = r
+				rmu.Unlock()
+			}}
+		}
+		tasks := []*vfTask{mk("TA", ba, la.CallbackTarget(pp)), mk("TB", bb, injected)}
+		mark := idp.mark()
+		sr := w.sched.Run(tasks, vfSchedOpts{Sleeps: []time.Duration{10 * time.Millisecond}, MaxSteps: 2000, MaxSim: 60 * time.Second})
+		if sr.Truncated {
+			w.sched.Drain(tasks)
+			w.truncated = true
+			w.violate("C05", "liveness", "concurrent-injection", "the racing callbacks did not finish")
+		}
+		sessions := 0
+		for _, id := range []string{"TA", "TB"} {
+			r := resps[id]
+			if r == nil || !vfSessionCookieSet(r, cfg.CookieName) {
+				continue
+			}
+			sessions++
+			w.nontriv = true
+			own := false
+			for _, c := range idp.since(mark, id) {
+				if c.Endpoint == "token:code" && strings.HasPrefix(c.Outcome, "200") && (cfg.PKCE == "" || c.Verifier == cv[id]) {
+					own = true
+				}
+			}
+			if !own {
+				w.violate("C05", "session-without-own-redemption", fmt.Sprintf("pkce=%s", cfg.PKCE), "callback %s (TB presents TA's code) established a session although no token request of its own, carrying its own verifier, was answered by the provider", id)
+			}
+		}
+		if sessions > 1 {
+			w.violate("C05", "one-code-two-sessions", fmt.Sprintf("pkce=%s", cfg.PKCE), "one authorization code established %d sessions (the honest callback and the one that injected its code)", sessions)
+		}
+		cs.Behaviours = append(cs.Behaviours, fmt.Sprintf("concurrent-injection/%d", sessions))
 	}
 	w.distKey = fmt.Sprintf("%v/%v/%v/%v", cs.PKCE, cs.SkipNonce, cs.PerRequest, cs.Behaviours)
 }
